@@ -132,56 +132,60 @@ Definition remove_change (sn : Z) (l : list change) : list change :=
   filter (fun c => negb (c_sn c =? sn)) l.
 
 (* ------------------------------------------- DataWriterEntity::write_w_timestamp *)
+(* registered_instance_info.iter().any(..) / push / OutOfResources *)
+Definition inst_for_write (q : qos) (h : Z) (l : list inst) : option (list inst) :=
+  if has_inst h l then Some l
+  else if len_lt (zlen l) (q_max_instances q) then Some (l ++ [mkInst h None []])
+  else None.
+(* the max_samples_per_instance test; skipped when KEEP_LAST(depth) already guarantees it *)
+Definition inst_full (m : Z) (h : Z) (l : list inst) : bool :=
+  match find_inst h l with
+  | Some s => usize_of_i32 m <=? zlen (i_samples s)
+  | None => false
+  end.
+Definition mspi_hit (q : qos) (h : Z) (l : list inst) : bool :=
+  match q_mspi q with
+  | Some m =>
+    match q_hist q with
+    | KeepLast d => if wrap_i32 d <=? m then false else inst_full m h l
+    | KeepAll => inst_full m h l
+    end
+  | None => false
+  end.
+(* the max_samples test *)
+Definition ms_hit (q : qos) (l : list inst) : bool :=
+  match q_max_samples q with
+  | Some ms => usize_of_i32 ms <=? total_samples l
+  | None => false
+  end.
+(* last_write_time update and samples.push_back(sn) *)
+Definition record_sample (ts sn : Z) (i : inst) : inst :=
+  mkInst (i_h i)
+         (match i_lwt i with
+          | Some l => if l <? ts then Some ts else Some l
+          | None => Some ts end)
+         (i_samples i ++ [sn]).
+(* lifespan early return: sample_timestamp - now + lifespan <= 0 *)
+Definition expired (q : qos) (ts now : Z) : bool :=
+  match q_lifespan q with
+  | Some ls => ts - now + ls <=? 0
+  | None => false
+  end.
+
 (* returns the new state and 0 (Ok) or the error code *)
 Definition ent_write (w : writer) (h ts now slot : Z) : writer * Z :=
   let q := w_qos w in
-  let insts0 := w_insts w in
-  (* registered_instance_info.iter().any(..) / push / OutOfResources *)
-  let step1 :=
-    if has_inst h insts0 then Some insts0
-    else if len_lt (zlen insts0) (q_max_instances q) then Some (insts0 ++ [mkInst h None []])
-    else None in
-  match step1 with
+  match inst_for_write q h (w_insts w) with
   | None => (w, E_OUT_OF_RESOURCES)
   | Some insts1 =>
     let w1 := set_insts w insts1 in
-    let mspi_hit :=
-      match q_mspi q with
-      | Some m =>
-        match q_hist q with
-        | KeepLast d => if wrap_i32 d <=? m then false
-                        else match find_inst h insts1 with
-                             | Some s => usize_of_i32 m <=? zlen (i_samples s)
-                             | None => false end
-        | KeepAll => match find_inst h insts1 with
-                     | Some s => usize_of_i32 m <=? zlen (i_samples s)
-                     | None => false end
-        end
-      | None => false
-      end in
-    if mspi_hit then (w1, E_OUT_OF_RESOURCES) else
-    let ms_hit :=
-      match q_max_samples q with
-      | Some ms => usize_of_i32 ms <=? total_samples insts1
-      | None => false
-      end in
-    if ms_hit then (w1, E_OUT_OF_RESOURCES) else
+    if mspi_hit q h insts1 then (w1, E_OUT_OF_RESOURCES) else
+    if ms_hit q insts1 then (w1, E_OUT_OF_RESOURCES) else
     let sn := w_last_sn w + 1 in
-    let insts2 := upd_inst h (fun i =>
-        mkInst (i_h i)
-               (match i_lwt i with
-                | Some l => if l <? ts then Some ts else Some l
-                | None => Some ts end)
-               (i_samples i ++ [sn])) insts1 in
-    let w2 := set_insts (set_last_sn w1 sn) insts2 in
-    (* lifespan early return: the sequence number is already recorded in the instance *)
-    let expired :=
-      match q_lifespan q with
-      | Some ls => ts - now + ls <=? 0
-      | None => false
-      end in
-    if expired then (w2, 0)
-    else (set_changes w2 (w_changes w2 ++ [mkCh sn K_ALIVE h ts slot]), 0)
+    let w2 := set_insts (set_last_sn w1 sn) (upd_inst h (record_sample ts sn) insts1) in
+    (* the sequence number is already recorded in the instance when the lifespan test returns *)
+    if expired q ts now then (w2, 0)
+    else (set_changes w2 (w_changes w ++ [mkCh sn K_ALIVE h ts slot]), 0)
   end.
 
 (* ------------------------------ the KEEP_LAST front of writer_methods::write_w_timestamp *)
